@@ -208,9 +208,9 @@ func checkC09(c *Check) {
 		cls = append(cls, classifier{
 			key: "ptracer." + handle.Name(), fn: handle,
 			seeds: func(w *walker, st *wstate, v ssa.Value) *absVal {
-				if b, ok := v.(*ssa.BinOp); ok && b.Op == token.EQL {
+				if b, ok := v.(*ssa.BinOp); ok && (b.Op == token.EQL || b.Op == token.NEQ) {
 					if (b.X == pidParam && isFieldLoad(b.Y)) || (b.Y == pidParam && isFieldLoad(b.X)) {
-						return avBool(true) // main pid
+						return avBool(b.Op == token.EQL) // main pid
 					}
 				}
 				return nil
@@ -402,9 +402,9 @@ func checkC09(c *Check) {
 			var bad []string
 			w := &walker{fn: handle}
 			w.Seed = seedChain(classifierSeeds(mode.exited, mode.signaled, mode.sig, 3), func(w *walker, st *wstate, v ssa.Value) *absVal {
-				if b, ok := v.(*ssa.BinOp); ok && b.Op == token.EQL {
+				if b, ok := v.(*ssa.BinOp); ok && (b.Op == token.EQL || b.Op == token.NEQ) {
 					if (b.X == pidParam && isFieldLoad(b.Y)) || (b.Y == pidParam && isFieldLoad(b.X)) {
-						return avBool(false)
+						return avBool(b.Op == token.NEQ) // a secondary pid
 					}
 				}
 				return nil
